@@ -2,8 +2,8 @@
 
 Decided: where the new sequence number comes from and how it reaches the share,
 the tuple shape that makes `sorted(verinfos)[-1]` the highest sequence number,
-and the completion predicate of the MODE_READ servermap update (DESIGN.md
-section 5, C11)."""
+the completion predicate of the MODE_READ servermap update, and the
+conservation of the pool of servers still to be asked (DESIGN.md section 5, C11)."""
 from sa.h import *
 from sa.cfg import reaching_defs
 
@@ -26,13 +26,24 @@ EXPLANATION = (
     "completion with every element's seqnum compared against the highest recoverable seqnum - a newer one makes "
     "the function return without _done(); once it has seen a newer unrecoverable version, or found nothing "
     "recoverable, every return has called self._send_more_queries(n) (n not a constant < 1) or _done(), or is on the "
-    "branch where queries are still outstanding. "
+    "branch where queries are still outstanding; (4) 'no server is left' means what it says: the pool "
+    "ServermapUpdater.extra_servers starts as a whole copy of the storage broker's server list; on every path "
+    "feasible in MODE_READ or MODE_WRITE a server that leaves the pool (.pop()) is passed to self._do_query - "
+    "directly, or via a local that is not re-bound first, or via a local collection that is drained by a loop "
+    "calling _do_query(element) on every iteration, by a method of the class that does so with its parameter, or by "
+    "the callers the collection is returned to; the pool is not emptied on such a path; every other way of taking "
+    "servers out of the pool (slicing, del, remove, aliasing) is reported as not analysable; _do_query reads from "
+    "the server it was given and that server is registered in _queries_outstanding (by _do_query or by every "
+    "caller), and _queries_outstanding is re-bound only before the first query is sent. "
     "Undecided: which servers hold which shares, arrival order of answers, RSA/hash strength; that "
-    "_send_more_queries really reaches a new server (its loop arithmetic) and that an updater which merely stops "
-    "with the query quota unmet is re-triggered (liveness); the MODE_WRITE/MODE_CHECK completion policies (the "
-    "property is relative to what the survey observed); the values stored in the header fields other than seqnum.")
+    "_send_more_queries sends at least one query when it is below its limit and the pool is not empty (its loop "
+    "arithmetic) and that an updater which merely stops with the query quota unmet is re-triggered (liveness); the "
+    "MODE_WRITE/MODE_CHECK completion policies and the full-survey modes' emptying of the pool (the property is "
+    "relative to what the survey observed); that a server is removed from _queries_outstanding only after its answer "
+    "was processed; the values stored in the header fields other than seqnum.")
 TECHNIQUE = ("static analysis: polynomial normal form of the seqnum formula, who-may-write, tuple-shape agreement "
-             "across producers/consumers, CFG x fact-monitor exploration of the MODE_READ completion predicate")
+             "across producers/consumers, CFG x fact-monitor exploration of the MODE_READ completion predicate, "
+             "path-sensitive conservation (typestate) of servers leaving the query pool with method/caller summaries")
 
 LAY = "mutable.layout"
 WP = LAY + ":MDMFSlotWriteProxy"
@@ -113,6 +124,477 @@ def _verinfo_shape(idx, r):
             r.require(ok, fn, fn.loc(n.ast), "_make_verinfo_hashable moves verinfo fields: %s" % (
                 src(fn, v) if v is not None else "?"))
     return first
+
+
+def _mode_infeasible(f, mode="MODE_READ"):
+    """Edge facts that cannot hold while self.mode == `mode`."""
+    if not f:
+        return False
+    op, a, b = f
+    if op in ("==", "!=") and "self.mode" in (a, b):
+        other = b if a == "self.mode" else a
+        if re.match(r"^MODE_\w+$", other or ""):
+            return (op == "==") != (other == mode)
+    if op in ("in", "not in") and a == "self.mode" and b and b.startswith("("):
+        names = [x.strip() for x in b.strip("(),").split(",")]
+        if all(re.match(r"^MODE_\w+$", x) for x in names if x):
+            return (op == "in") != (mode in names)
+    return False
+
+
+# ---- the pool of servers still to be asked (C11.4) ---------------------------
+POOL = "self.extra_servers"
+QUERY = "self._do_query"
+_COPIES = ("list", "tuple", "sorted", "set", "frozenset")
+_ENQ = ("append", "add", "insert")
+_MERGE = ("extend", "update")
+_LOSE = ("pop", "remove", "clear", "discard", "difference_update", "intersection_update",
+         "symmetric_difference_update")
+_READ_ONLY = ("len", "bool", "any", "all", "enumerate", "reversed", "iter", "repr", "str") + _COPIES
+_POOL_HARMLESS_METHODS = ("append", "extend", "insert", "sort", "reverse", "index", "count", "copy")
+# the surveys this property rests on: the read, and the one a publish takes its sequence number from
+_SURVEY_MODES = ("MODE_READ", "MODE_WRITE")
+
+
+def _whole(e, fnm=None, at=None):
+    """The expression `e` is a whole-collection copy of (x[:], list(x), x.copy(), ...); with `fnm`
+    plain-name copies are followed as well."""
+    for _i in range(12):
+        if fnm is not None:
+            e = fnm.resolve(at, e)
+        if isinstance(e, ast.Subscript) and isinstance(e.slice, ast.Slice) and e.slice.lower is None \
+                and e.slice.upper is None and e.slice.step is None:
+            e = e.value
+        elif isinstance(e, ast.Call) and isinstance(e.func, ast.Name) and e.func.id in _COPIES \
+                and len(e.args) == 1 and not e.keywords and not isinstance(e.args[0], ast.Starred):
+            e = e.args[0]
+        elif isinstance(e, ast.Call) and isinstance(e.func, ast.Attribute) and e.func.attr == "copy" \
+                and not e.args and not e.keywords:
+            e = e.func.value
+        else:
+            break
+    return e
+
+
+def _is_empty_collection(e):
+    return (isinstance(e, (ast.List, ast.Tuple, ast.Set)) and not e.elts) or \
+        (isinstance(e, ast.Call) and isinstance(e.func, ast.Name) and e.func.id in _COPIES
+         and not e.args and not e.keywords)
+
+
+class _PoolFlow:
+    """Conservation of the pool: a server that leaves ServermapUpdater.extra_servers is held in a local
+    (carrier) or collected in a local collection (queue); at the normal exit of the function every carrier
+    has been passed to self._do_query and every queue has been drained - by a loop that calls
+    self._do_query(element) on each iteration, by a method of the class that does so with its parameter,
+    or by being returned to callers that do."""
+
+    def __init__(self, idx, cg, r, cls, qparam):
+        self.idx, self.cg, self.r, self.cls, self.qparam = idx, cg, r, cls, qparam
+        self.conf = {}        # qual -> (fn, entry-dirty parameter names, {node id: names made dirty there})
+        self.viol = {}        # qual -> [(fn, ast node, message, witness)]
+        self.sites = {}       # qual -> {key: (fn, ast node, label)}
+        self.running = set()
+        self.n_states = 0
+        self.n_initial = 0
+
+    # -- configuration -------------------------------------------------------
+    def _conf(self, fn):
+        return self.conf.setdefault(fn.qual, (fn, set(), {}))
+
+    def analyse(self, fn):
+        self._conf(fn)
+        self._run(fn)
+
+    def drain(self, m, param):
+        (_f, ed, _s) = self._conf(m)
+        if param not in ed:
+            ed.add(param)
+            self._run(m)
+
+    def _run(self, fn):
+        if fn.qual in self.running:
+            return
+        self.running.add(fn.qual)
+        try:
+            returned = self._flow(fn)
+        finally:
+            self.running.discard(fn.qual)
+        if returned:
+            self._callers(fn, returned)
+
+    def _callers(self, fn, returned):
+        if [1 for (_f, nd) in self.cg.refs_named(fn.name) if attr_path(nd) == "self." + fn.name]:
+            raise AnalysisError("%s hands servers taken from the pool back to its caller and is passed around as a "
+                                "value: its callers cannot be followed" % short(fn))
+        changed = {}
+        n_callers = 0
+        for cs in self.cg.calls_named(fn.name):
+            if call_name(cs.call) != "self." + fn.name or cs.fn.cls is None or \
+                    not any(c is self.cls for c in cs.fn.cls.mro()):
+                continue
+            n_callers += 1
+            at = _node_of(cs.fn, cs.call)
+            st = at.ast
+            names = set()
+            if isinstance(st, ast.Expr) and st.value is cs.call:
+                self.viol.setdefault(cs.fn.qual + "#discard", []).append(
+                    (cs.fn, cs.call, "the servers %s took out of the pool of servers still to be asked are "
+                     "discarded with its result: they are never queried" % short(fn), None))
+                continue
+            if not (at.kind == "stmt" and isinstance(st, ast.Assign) and st.value is cs.call and len(st.targets) == 1):
+                raise AnalysisError("%s: the result of %s (servers taken from the pool) is used in a way that is not "
+                                    "followed" % (cs.fn.loc(cs.call), short(fn)))
+            tg = st.targets[0]
+            for i in returned:
+                if i is None and isinstance(tg, ast.Name):
+                    names.add(tg.id)
+                elif i is not None and isinstance(tg, (ast.Tuple, ast.List)) and i < len(tg.elts) \
+                        and isinstance(tg.elts[i], ast.Name) and not any(isinstance(e, ast.Starred) for e in tg.elts):
+                    names.add(tg.elts[i].id)
+                else:
+                    raise AnalysisError("%s: the result of %s is not unpacked into plain names" % (
+                        cs.fn.loc(cs.call), short(fn)))
+            (_f, _ed, seeds) = self._conf(cs.fn)
+            if not names <= seeds.get(at.id, set()):
+                seeds.setdefault(at.id, set()).update(names)
+                changed[cs.fn.qual] = cs.fn
+            self.sites.setdefault(cs.fn.qual, {})[("adopt", at.id)] = (cs.fn, cs.call, "queried by the caller")
+        if not n_callers:
+            raise AnalysisError("%s returns servers taken from the pool, and nothing calls it" % short(fn))
+        for f in changed.values():
+            self._run(f)
+
+    # -- one function ----------------------------------------------------------
+    def _queries_each(self, fn, lp):
+        """Every iteration of the loop `lp` passes its element to self._do_query before the next
+        iteration starts or the loop / the function is left."""
+        cfg = fn.cfg()
+        tv = lp.ast.target
+        if not isinstance(tv, ast.Name):
+            return False
+
+        def asks(n):
+            for c in node_calls(n):
+                if call_name(c) == QUERY:
+                    a0 = arg(c, 0, self.qparam)
+                    if isinstance(a0, ast.Name) and a0.id == tv.id:
+                        return True
+            return False
+
+        def tr(n, lab, nx, st):
+            if lab == "exc":
+                return None
+            if n is lp:
+                return 1 if (st == 0 and lab == "iter") else None
+            if n.kind in ("exit", "raise") or asks(n) or tv.id in node_stores(n):
+                return None
+            return 1
+        visited, _p = explore(cfg, 0, tr, start=lp)
+        for (i, st) in visited:
+            n = cfg.nodes[i]
+            if st == 1 and (n is lp or n.kind == "exit"):
+                return False
+            if st == 1 and tv.id in node_stores(n) and not asks(n):
+                return False
+        return True
+
+    def _flow(self, fn):
+        (_f, entry_dirty, seeds) = self._conf(fn)
+        cfg = fn.cfg()
+        fnm = FlowNorm(fn, depth=8)
+        found = {}
+        sites = self.sites.setdefault(fn.qual, {})
+        returned = set()
+        me = self
+
+        def tr(a, lab, nx, st):
+            if lab == "exc":
+                return None
+            car, dirty, modes, bound = st
+            f = fnm.edge_fact(a, lab)
+            if f:
+                modes = frozenset(m for m in modes if not _mode_infeasible(f, m))
+                if not modes:
+                    return None
+            if a.kind in ("entry", "exit", "raise") or a.ast is None:
+                return (car, dirty, modes, bound)
+            car, dirty = set(car), set(dirty)
+
+            def bad(key, node, msg):
+                found.setdefault((a.id, key), (a, st, node, msg))
+            calls = node_calls(a)
+            pops = [c for c in calls if call_name(c) == POOL + ".pop"]
+            placed = set()
+            # ---- uses (the right-hand side is evaluated before any store) -----
+            for c in calls:
+                nm, tail = call_name(c), call_tail(c)
+                recv = c.func.value if isinstance(c.func, ast.Attribute) else None
+                if nm == QUERY:
+                    a0 = arg(c, 0, me.qparam)
+                    if isinstance(a0, ast.Name):
+                        car.discard(a0.id)
+                        dirty.discard(a0.id)      # a single server handed back by a callee
+                    for p in pops:
+                        if a0 is p:
+                            placed.add(id(p))
+                elif tail in _ENQ and isinstance(recv, ast.Name):
+                    for x in (c.args[1:2] if tail == "insert" else c.args[:1]):
+                        if isinstance(x, ast.Name) and x.id in car:
+                            car.discard(x.id)
+                            dirty.add(recv.id)
+                        for p in pops:
+                            if x is p:
+                                placed.add(id(p))
+                                dirty.add(recv.id)
+                elif tail in _MERGE and isinstance(recv, ast.Name) and c.args:
+                    y = _whole(c.args[0])
+                    if isinstance(y, ast.Name) and y.id in dirty and y.id != recv.id:
+                        dirty.discard(y.id)
+                        dirty.add(recv.id)
+                elif tail in _LOSE and isinstance(recv, ast.Name) and recv.id in dirty:
+                    if tail == "clear":
+                        bad("clear:" + recv.id, c, "'%s' holds servers taken out of the pool of servers still to be "
+                            "asked and is emptied before they are queried" % recv.id)
+                        dirty.discard(recv.id)
+                    else:
+                        raise AnalysisError("%s: %s.%s(..) takes a server back out of a collection of servers that "
+                                            "left the pool; this is not followed" % (fn.loc(c), recv.id, tail))
+                elif nm.startswith("self.") and nm.count(".") == 1:
+                    m = me.cls.lookup(tail)
+                    actual = [(i, x) for i, x in enumerate(c.args)] + [(kw.arg, kw.value) for kw in c.keywords]
+                    for (pos, x) in actual:
+                        y = _whole(x)
+                        if not isinstance(y, ast.Name):
+                            continue
+                        if y.id in car:
+                            raise AnalysisError("%s: a server taken from the pool is handed to %s, not to %s; this "
+                                                "is not followed" % (fn.loc(c), nm, QUERY))
+                        if y.id not in dirty:
+                            continue
+                        ps = first_positional_params(m) if m is not None else []
+                        pname = pos if isinstance(pos, str) else (ps[pos] if pos < len(ps) else None)
+                        if m is None or pname is None or pname not in m.params:
+                            raise AnalysisError("%s: servers taken from the pool are handed to %s, which cannot be "
+                                                "resolved" % (fn.loc(c), nm))
+                        sites[("hand", a.id)] = (fn, c, "queue handed to %s(%s)" % (tail, pname))
+                        me.drain(m, pname)
+                        dirty.discard(y.id)
+            # ---- return: the caller takes over ----------------------------------
+            if is_return(a) and a.ast.value is not None:
+                v = a.ast.value
+                if isinstance(v, ast.Name):
+                    for tok in sorted(t for t in dirty if t.startswith(v.id + "#")):
+                        returned.add(int(tok.split("#")[1]))
+                        dirty.discard(tok)
+                for (i, e) in (list(enumerate(v.elts)) if isinstance(v, ast.Tuple) else [(None, v)]):
+                    y = _whole(e)
+                    if isinstance(y, ast.Name) and (y.id in dirty or y.id in car):
+                        returned.add(i)
+                        dirty.discard(y.id)
+                        car.discard(y.id)
+                    for p in pops:
+                        if e is p:
+                            placed.add(id(p))
+                            returned.add(i)
+            # ---- a loop that asks every element ------------------------------------
+            if a.kind == "iter":
+                y = _whole(a.ast.iter)
+                if isinstance(y, ast.Name) and y.id in dirty and lab == "done":
+                    if me._queries_each(fn, a):
+                        sites[("loop", a.id)] = (fn, a.ast, "every collected server queried")
+                    else:
+                        bad("loop:" + y.id, a.ast, "the loop over '%s' - servers taken out of the pool of servers still "
+                            "to be asked - can pass over an element, or stop early, without %s(<element>, ..): that "
+                            "server is never asked" % (y.id, QUERY))
+                    dirty.discard(y.id)
+            # ---- stores ----------------------------------------------------------------
+            stored = {s for s in node_stores(a) if "." not in s and not s.endswith("[]")}
+            if a.kind == "iter" and lab != "iter":
+                stored = set()
+            for s in sorted(stored):
+                if s in car:
+                    bad("car:" + s, a.ast, "'%s' still holds a server that was taken out of the pool of servers still "
+                        "to be asked (%s) and not passed to %s when it is re-bound: that server is never asked"
+                        % (s, POOL, QUERY))
+                    car.discard(s)
+                if s in dirty:
+                    v = assign_value(a, s)
+                    y = _whole(v) if v is not None else None
+                    if isinstance(y, ast.Name) and y.id == s:
+                        continue
+                    bad("queue:" + s, a.ast, "'%s' holds servers taken out of the pool of servers still to be asked and "
+                        "is re-bound before they are queried" % s)
+                    dirty.discard(s)
+                for tok in sorted(t for t in dirty if t.startswith(s + "#")):
+                    if isinstance(a.ast, ast.Assign) and isinstance(a.ast.value, ast.Name) and a.ast.value.id == s:
+                        continue            # being unpacked here, see below
+                    bad("queue:" + tok, a.ast, "'%s' holds servers taken out of the pool of servers still to be asked "
+                        "and is re-bound before they are queried" % s)
+                    dirty.discard(tok)
+            # ---- a tuple of locals kept in a local (t = q, other) and taken apart again (q2, o2 = t) ------
+            if a.kind == "stmt" and isinstance(a.ast, ast.Assign) and len(a.ast.targets) == 1:
+                tg, v = a.ast.targets[0], a.ast.value
+                if isinstance(tg, ast.Name) and isinstance(v, ast.Tuple):
+                    for i, e in enumerate(v.elts):
+                        y = _whole(e)
+                        if isinstance(y, ast.Name) and y.id != tg.id and (y.id in dirty or y.id in car):
+                            dirty.discard(y.id)
+                            car.discard(y.id)
+                            dirty.add("%s#%d" % (tg.id, i))
+                elif isinstance(tg, (ast.Tuple, ast.List)) and isinstance(v, ast.Name):
+                    for i, e in enumerate(tg.elts):
+                        tok = "%s#%d" % (v.id, i)
+                        if tok in dirty and isinstance(e, ast.Name):
+                            dirty.discard(tok)
+                            dirty.add(e.id)
+            # ---- servers leaving the pool ------------------------------------------------
+            for p in pops:
+                sites[("pop", a.id)] = (fn, p, "server leaves the pool")
+                if id(p) in placed:
+                    continue
+                if a.kind == "stmt" and isinstance(a.ast, ast.Assign) and a.ast.value is p \
+                        and len(a.ast.targets) == 1 and isinstance(a.ast.targets[0], ast.Name):
+                    car.add(a.ast.targets[0].id)
+                elif a.kind == "stmt" and isinstance(a.ast, ast.Expr) and a.ast.value is p:
+                    bad("drop", p, "a server is taken out of the pool of servers still to be asked (%s) and dropped at "
+                        "once: it is never asked" % src(fn, p))
+                else:
+                    raise AnalysisError("%s: the server taken from the pool by %s is used in a way that is not "
+                                        "followed" % (fn.loc(p), src(fn, p)))
+            for nm in seeds.get(a.id, ()):
+                dirty.add(nm)
+            # ---- (re-)binding of the pool ---------------------------------------------------
+            if POOL in node_stores(a) and isinstance(a.ast, (ast.Assign, ast.AnnAssign)):
+                v = assign_value(a, POOL)
+                if v is None or any(attr_path(x) == POOL for x in ast.walk(v)):
+                    raise AnalysisError("%s: the pool of servers still to be asked is re-built by %s; servers leaving "
+                                        "it this way are not followed" % (fn.loc(a.ast), src(fn, a.ast)))
+                if not bound:
+                    core = _whole(v, fnm, a)
+                    sites[("init", a.id)] = (fn, a.ast, "initial pool")
+                    me.n_initial += 1
+                    if not (isinstance(core, ast.Call) and re.match(r"^[\w.]*_storage_broker\.\w+\(", fnm.norm(a, core))):
+                        bad("init", a.ast, "the pool of servers still to be asked starts as %s, which is not a copy of "
+                            "the storage broker's whole server list: the servers left out are never asked"
+                            % src(fn, v))
+                    bound = True
+                elif _is_empty_collection(v):
+                    bad("emptied", a.ast, "the pool of servers still to be asked is emptied (%s) in a survey that "
+                        "queries only part of the servers at first (possible modes: %s): the servers left in it are "
+                        "never asked" % (src(fn, a.ast), ", ".join(sorted(modes))))
+                else:
+                    raise AnalysisError("%s: the pool of servers still to be asked is replaced by %s; this is not "
+                                        "followed" % (fn.loc(a.ast), src(fn, a.ast)))
+            return (frozenset(car), frozenset(dirty), modes, bound)
+
+        init = (frozenset(), frozenset(entry_dirty), frozenset(_SURVEY_MODES), False)
+        visited, parent = explore(cfg, init, tr)
+        self.n_states += len(visited)
+        out = []
+        seen = set()
+        for (nid, st) in sorted(visited, key=lambda x: (x[0], sorted(x[1][0]), sorted(x[1][1]), sorted(x[1][2]), x[1][3])):
+            if nid != cfg.exit.id:
+                continue
+            for nm in sorted(st[0]):
+                if ("car", nm) not in seen:
+                    seen.add(("car", nm))
+                    w = witness(cfg, parent, (nid, st))
+                    out.append((fn, None, "%s can return with a server that it took out of the pool of servers still to "
+                                "be asked (%s) still in '%s', never passed to %s: the server is in neither the pool nor "
+                                "the outstanding queries, so it is never asked (path: %s)"
+                                % (short(fn), POOL, nm, QUERY, w.brief()), w))
+            for nm in sorted(st[1]):
+                if ("q", nm) not in seen:
+                    seen.add(("q", nm))
+                    w = witness(cfg, parent, (nid, st))
+                    out.append((fn, None, "%s can return with servers %s collected in '%s' that are not passed to %s: "
+                                "they are never asked (path: %s)"
+                                % (short(fn), "handed to it for querying" if nm in entry_dirty else
+                                   "it took out of the pool of servers still to be asked", nm, QUERY, w.brief()), w))
+        for key in sorted(found, key=lambda k: (k[0], k[1])):
+            (a, st, node, msg) = found[key]
+            w = witness(cfg, parent, (a.id, st))
+            out.append((fn, node, "%s (path: %s)" % (msg, w.brief()), w))
+        self.viol[fn.qual] = out
+        return returned
+
+    def emit(self):
+        for q in sorted(self.sites):
+            for key in sorted(self.sites[q], key=str):
+                (fn, node, label) = self.sites[q][key]
+                self.r.site(fn, node, label)
+        for q in sorted(self.viol):
+            for (fn, node, msg, w) in self.viol[q]:
+                self.r.violation(fn, fn.loc(node) if node is not None else fn.loc(), msg, w)
+
+
+def _pool_references(idx, cg, cls, r):
+    """Every use of the pool attribute in the package: reads are harmless, .pop() is followed by _PoolFlow,
+    anything else that can take a server out is reported (fail closed).  -> functions to analyse."""
+    todo = {}
+    n_pop = 0
+    parents = {}
+
+    def parent_of(fn, node):
+        pm = parents.get(fn.qual)
+        if pm is None:
+            pm = parents[fn.qual] = {}
+            for p_ in ast.walk(fn.node):
+                for c_ in ast.iter_child_nodes(p_):
+                    pm[id(c_)] = p_
+        return pm.get(id(node))
+    attr = POOL.split(".")[-1]
+    for (fn, nd) in cg.refs_named(attr) + cg.attr_stores(attr):
+        if not isinstance(nd, ast.Attribute):
+            continue                       # a local that happens to share the name
+        inside = fn.cls is not None and any(c is cls for c in fn.cls.mro())
+        if not inside or attr_path(nd) != POOL:
+            raise AnalysisError("%s: the updater's pool of servers still to be asked is used as %s outside the "
+                                "updater's own methods; this is not followed" % (fn.loc(nd), src(fn, nd)))
+        par = parent_of(fn, nd)
+        if isinstance(nd.ctx, ast.Store):
+            if isinstance(par, (ast.Assign, ast.AnnAssign)):
+                todo[fn.qual] = fn
+                continue
+            if isinstance(par, ast.AugAssign) and isinstance(par.op, ast.Add):
+                continue
+            raise AnalysisError("%s: the pool of servers still to be asked is bound by %s; this is not followed"
+                                % (fn.loc(nd), src(fn, par) if par is not None else "?"))
+        if isinstance(nd.ctx, ast.Del):
+            raise AnalysisError("%s: the pool of servers still to be asked is deleted" % fn.loc(nd))
+        if isinstance(par, ast.Attribute) and par.value is nd:
+            gp = parent_of(fn, par)
+            is_call = isinstance(gp, ast.Call) and gp.func is par
+            if is_call and par.attr == "pop":
+                n_pop += 1
+                todo[fn.qual] = fn
+                continue
+            if is_call and par.attr == "clear":
+                r.violation(fn, fn.loc(gp), "the pool of servers still to be asked is emptied by %s: the servers left "
+                            "in it are never asked" % src(fn, gp))
+                continue
+            if is_call and par.attr in _POOL_HARMLESS_METHODS:
+                continue
+            raise AnalysisError("%s: %s may take servers out of the pool of servers still to be asked; this is not "
+                                "followed" % (fn.loc(par), src(fn, gp if is_call else par)))
+        if isinstance(par, ast.Subscript) and par.value is nd:
+            if isinstance(par.ctx, ast.Load):
+                continue
+            raise AnalysisError("%s: %s changes the pool of servers still to be asked in place; this is not followed"
+                                % (fn.loc(par), src(fn, par)))
+        if isinstance(par, ast.Call) and isinstance(par.func, ast.Name) and par.func.id in _READ_ONLY and nd in par.args:
+            continue
+        if isinstance(par, (ast.For, ast.comprehension)) and par.iter is nd:
+            continue
+        if isinstance(par, (ast.Compare, ast.BoolOp, ast.If, ast.While, ast.IfExp, ast.Assert)) or \
+                (isinstance(par, ast.UnaryOp) and isinstance(par.op, ast.Not)):
+            continue
+        raise AnalysisError("%s: the pool of servers still to be asked escapes through %s; this is not followed"
+                            % (fn.loc(nd), src(fn, par) if par is not None else "?"))
+    if not n_pop:
+        raise AnchorVanished("no server is ever taken out of %s with .pop()" % POOL)
+    return todo
 
 
 def run(ctx: Context):
@@ -535,20 +1017,7 @@ def run(ctx: Context):
         if not mode_tests:
             raise AnchorVanished("_check_for_done no longer tests for MODE_READ")
 
-        def infeasible(f):
-            """Edge facts that cannot hold while self.mode == MODE_READ."""
-            if not f:
-                return False
-            op, a, b = f
-            if op in ("==", "!=") and "self.mode" in (a, b):
-                other = b if a == "self.mode" else a
-                if re.match(r"^MODE_\w+$", other or ""):
-                    return (op == "==") != (other == "MODE_READ")
-            if op in ("in", "not in") and a == "self.mode" and b and b.startswith("("):
-                names = [x.strip() for x in b.strip("(),").split(",")]
-                if all(re.match(r"^MODE_\w+$", x) for x in names if x):
-                    return (op == "in") != ("MODE_READ" in names)
-            return False
+        infeasible = _mode_infeasible
 
         FIELDS = ("qe", "xe", "quota", "recov", "loop", "unchecked", "need", "sent", "wait", "done")
         need_edges = {}
@@ -670,3 +1139,85 @@ def run(ctx: Context):
         for (f, nd) in cg.attr_stores("mode"):
             if f.cls is not None and f.cls.name == "ServermapUpdater" and f.name != "__init__":
                 r.violation(f, f.loc(nd), "%s changes the update mode" % short(f))
+
+    # ---- 4. no server falls out of the survey unasked --------------------------
+    with ctx.rule("C11.4", "R1/R6", "ServermapUpdater: the pool of servers still to be asked starts as the whole server "
+                  "list; every server that leaves it is passed to _do_query (directly, or through a collection that is "
+                  "drained by a loop / method / caller that queries each element); a queried server is registered in "
+                  "_queries_outstanding, which is not re-bound once queries are in flight", expected=9) as r:
+        ucls = idx.cls(SMU)
+        dq = idx.func(SMU + "._do_query")
+        qps = first_positional_params(dq)
+        if not qps:
+            raise AnchorVanished("ServermapUpdater._do_query no longer takes the server to ask")
+        qparam = qps[0]
+        todo = _pool_references(idx, cg, ucls, r)
+        pf = _PoolFlow(idx, cg, r, ucls, qparam)
+        for q in sorted(todo):
+            pf.analyse(todo[q])
+        pf.emit()
+        r.count(pf.n_states)
+        if not any(k[0] == "init" for ss in pf.sites.values() for k in ss):
+            raise AnchorVanished("the pool of servers still to be asked (%s) is never bound" % POOL)
+        # the "nobody left to ask" test of _check_for_done reads: no query outstanding and the pool empty.  A server
+        # that left the pool must therefore be in _queries_outstanding until its answer has been processed.
+        OUT = "self._queries_outstanding"
+        r.require(qparam not in {s for n in dq.cfg().nodes for s in node_stores(n)}, dq, dq.loc(),
+                  "_do_query re-binds '%s', the server it was asked to query" % qparam)
+
+        def _names(c, i, nm, who):
+            a_ = arg(c, i, who)
+            return isinstance(a_, ast.Name) and a_.id == nm
+
+        reads = [n for n in dq.cfg().nodes if any(call_name(c) == "self._do_read" and _names(c, 0, qparam, "server")
+                                                  for c in node_calls(n))]
+        if not reads:
+            raise AnchorVanished("_do_query no longer reads from the server through self._do_read(%s, ..)" % qparam)
+        r.site(dq, reads[0].ast, "query sent")
+        unreg = find_path_avoiding(dq.cfg(), lambda x: x in reads, gate_node=lambda n: any(
+            call_name(c) == OUT + ".add" and _names(c, 0, qparam, None) for c in node_calls(n)), skip_exc_edges=True)
+        if not unreg:
+            r.site(dq, None, "queried server registered as outstanding")
+        else:
+            # ... or every caller registers it before the call
+            n_cs = 0
+            for cs in cg.calls_named(dq.name):
+                if call_name(cs.call) != QUERY or cs.fn.cls is None or not any(c is ucls for c in cs.fn.cls.mro()):
+                    continue
+                n_cs += 1
+                a0 = arg(cs.call, 0, qparam)
+                at = _node_of(cs.fn, cs.call)
+                r.site(cs.fn, cs.call, "queried server registered as outstanding by the caller")
+                if not isinstance(a0, ast.Name):
+                    r.violation(cs.fn, cs.fn.loc(cs.call), "the server queried by %s is registered in %s neither by "
+                                "_do_query nor here" % (src(cs.fn, cs.call), OUT))
+                    continue
+                for (t, w) in find_path_avoiding(cs.fn.cfg(), lambda x, _at=at: x is _at, gate_node=lambda n, _nm=a0.id: any(
+                        call_name(c) == OUT + ".add" and _names(c, 0, _nm, None) for c in node_calls(n)),
+                        kill=lambda m, _nm=a0.id, _at=at: m is not _at and _nm in node_stores(m), skip_exc_edges=True):
+                    r.violation(cs.fn, cs.fn.loc(cs.call), "a query is sent to '%s' without registering it in %s (neither "
+                                "_do_query nor this caller does): while its answer is pending the updater can find no "
+                                "query outstanding and no server left, and finish (path: %s)" % (a0.id, OUT, w.brief()), w)
+            if not n_cs:
+                raise AnchorVanished("nothing calls %s" % QUERY)
+        for (f, nd) in cg.attr_stores(OUT.split(".")[-1]):
+            if f.cls is None or not any(c is ucls for c in f.cls.mro()) or attr_path(nd) != OUT:
+                continue
+            at = _node_of(f, nd)
+            r.site(f, at.ast, "outstanding set bound")
+            before_queries = f.name in ("__init__", "update")
+            if not before_queries:
+                callers = [cs for cs in cg.calls_named(f.name) if call_name(cs.call) == "self." + f.name]
+                passed = [1 for (_f2, n2) in cg.refs_named(f.name) if attr_path(n2) == "self." + f.name]
+                before_queries = bool(callers) and not passed and all(cs.fn.name == "update" and cs.fn.cls is f.cls
+                                                                      for cs in callers)
+            r.require(before_queries, f, f.loc(at.ast), "%s re-binds %s, and it can run while queries are in flight: "
+                      "the servers being asked are forgotten, so the updater can find nothing outstanding and finish "
+                      "before their answers arrive" % (short(f), OUT))
+            sent = [n for n in f.cfg().nodes if any(call_name(c) in (QUERY, OUT + ".add") for c in node_calls(n))]
+            for s in sent:
+                visited, _p = explore(f.cfg(), 0, lambda a, lab, nx, st: None if lab == "exc" else 0, start=s)
+                if any(i == at.id for (i, _s) in visited) and s is not at:
+                    r.violation(f, f.loc(at.ast), "%s is re-bound after %s: the servers already being asked are "
+                                "forgotten" % (OUT, src(f, s.ast)))
+                    break
